@@ -45,7 +45,7 @@ from .stats import (
     RTCRemoteOutboundRtpStreamStats,
     RTCStatsReport,
 )
-from .utils import uint16_add, uint16_gt
+from .utils import uint16_add, uint16_gt, uint32_gt
 
 logger = logging.getLogger(__name__)
 
@@ -276,6 +276,7 @@ class RTCRtpReceiver:
         self.__decoder_queue: queue.Queue = queue.Queue()
         self.__decoder_thread: Optional[threading.Thread] = None
         self.__kind = kind
+        self.__last_frame_timestamp: Optional[int] = None
         if kind == "audio":
             self.__jitter_buffer = JitterBuffer(capacity=16, prefetch=4)
             self.__nack_generator = None
@@ -539,6 +540,14 @@ class RTCRtpReceiver:
 
         # if we have a complete encoded frame, decode it
         if encoded_frame is not None and self.__decoder_thread:
+            # Never hand the decoder a frame which is not newer than the last
+            # one: packets arriving very late can reset the jitter buffer and
+            # make it re-assemble frames which were already decoded.
+            if self.__last_frame_timestamp is not None and not uint32_gt(
+                encoded_frame.timestamp, self.__last_frame_timestamp
+            ):
+                return
+            self.__last_frame_timestamp = encoded_frame.timestamp
             encoded_frame.timestamp = self.__timestamp_mapper.map(
                 encoded_frame.timestamp
             )
